@@ -114,8 +114,9 @@ def attrs_kept(sub, g):
 def build(n, arcs, names=NAMES):
     """The DAG with the given arcs, reached by one of several histories chosen deterministically from the arcs: plain
     insertion; insertion with queries of every family half way (warm caches); a detour through an extra node and an extra
-    edge that are deleted again; a copy; a dictionary round trip."""
-    mode = (n * 7 + sum((i + 1) * (3 * a + b + 1) for i, (a, b) in enumerate(arcs))) % 9
+    edge that are deleted again; a copy; a dictionary round trip; a scaffold node joined to every node and deleted again; the
+    node with most parents renamed away and back."""
+    mode = (n * 7 + sum((i + 1) * (3 * a + b + 1) for i, (a, b) in enumerate(arcs))) % 12
     g = CausalGraph()
     ids = [names[i] for i in range(n)]
     touched = {v for e in arcs for v in e}
@@ -148,6 +149,24 @@ def build(n, arcs, names=NAMES):
         g.delete_edge(names[a], names[b])
         _warm_queries(g, ids)
         g.add_edge(names[a], names[b])
+    if mode in (9, 10) and n >= 2:
+        # a scaffold node with SEVERAL directed edges (every node its parent / its child) is added and deleted again: whatever the
+        # neighbours keep per node must be cleaned for each of them
+        g.add_node('zz~')
+        for i in range(n):
+            if mode == 9:
+                g.add_edge(names[i], 'zz~')
+            else:
+                g.add_edge('zz~', names[i])
+        _warm_queries(g, ids)
+        g.delete_node('zz~')
+    if mode == 11 and arcs:
+        # the node with most parents is renamed away and back (replace_node re-creates its edges and deletes the original)
+        indeg = {v: sum(1 for _, b in arcs if b == v) for v in range(n)}
+        x = max(range(n), key=lambda v: (indeg[v], -v))
+        g.replace_node(names[x], 'zz~')
+        _warm_queries(g, ['zz~' if i == x else names[i] for i in range(n)])
+        g.replace_node('zz~', names[x])
     if mode == 6:
         _warm_queries(g, ids)
         g = g.copy()
